@@ -11,7 +11,7 @@ over the rationals on (facts ∧ ¬goal), with integer tightening of strict ineq
 from fractions import Fraction
 
 from .core import operand_locals, def_sites, strip_reborrow
-from .expr import E, expr_of_operand, expr_of_local, call_arg_exprs, evaluate, deep_repr
+from .expr import ADTS, E, expr_of_operand, expr_of_local, call_arg_exprs, evaluate, deep_repr
 from .guards import NEG, SWAP
 
 USIZE_MAX = (1 << 64) - 1
@@ -298,6 +298,9 @@ class Ctx:
                     rv = d[2]["rv"]
                     if rv.get("agg") in ("tuple", "closure") and proj[0]["f"] < len(rv["ops"]):
                         nxt, used = rv["ops"][proj[0]["f"]], 1
+                    elif rv.get("agg") == "adt" and proj[0]["f"] < len(rv["ops"]) and \
+                            len(ADTS.get(rv.get("path"), {}).get("variants", [0])) == 1:
+                        nxt, used = rv["ops"][proj[0]["f"]], 1     # field of a struct literal
             if nxt is None or nxt.get("k") not in ("copy", "move"):
                 return {"k": o["k"], "l": base, "p": proj} if base != o["l"] else o
             o = {"k": "copy", "l": nxt["l"], "p": list(nxt["p"]) + list(proj[used:])}
@@ -402,6 +405,10 @@ class Ctx:
                 l, r = self.lin(ck[1], depth + 1), self.lin(ck[2], depth + 1)
                 if l is not None and r is not None:
                     return lin_add(l, r, -1 if ck[0] == "sub" else 1)
+            # an integer field of a record parameter (`self.ciphertext` of `&Lengths`): a variable of its
+            # own, translated at call sites to the field of the record the caller passes
+            if e.a.k == "local" and 1 <= e.a.a <= fn.argc and isinstance(e.b, str) and "." not in e.b and not e.b.isdigit():
+                return lin_var(("local", "%s.%s" % (self.name(e.a.a), e.b)))
             return lin_var(("field", deep_repr(e)))
         if e.k == "binop":
             op = e.a.replace("WithOverflow", "").replace("Unchecked", "")
@@ -599,6 +606,8 @@ def _param_based(lin, names):
             continue
         if isinstance(v, tuple) and v[0] in ("len", "local") and v[1] in names:
             continue
+        if isinstance(v, tuple) and v[0] in ("local", "len") and isinstance(v[1], str) and v[1].count(".") == 1 and v[1].split(".")[0] in names:
+            continue        # integer field / length of a slice field of a record parameter
         return False
     return True
 
@@ -672,9 +681,28 @@ def translate(lin, g, call, ctx):
             out = lin_add(out, lin_scale(lin_var(v), coef))
             continue
         p = names.get(v[1]) if isinstance(v, tuple) and len(v) > 1 else None
+        a = None
+        if p is None and isinstance(v, tuple) and len(v) > 1 and isinstance(v[1], str) and "." in v[1]:
+            # `param.field` of a record parameter (`Lengths { ciphertext, message }.check()`): the field of
+            # the record the caller passes
+            base_, fld = v[1].split(".", 1)
+            p0 = names.get(base_)
+            if p0 is not None and p0 <= len(call.args) and "." not in fld and call.args[p0 - 1].get("k") in ("copy", "move"):
+                ty = g.locals[p0]
+                while ty.get("k") == "ref" and isinstance(ty.get("inner"), dict):
+                    ty = ty["inner"]
+                adt = ADTS.get(ty.get("path") or "", {})
+                vs_ = adt.get("variants", [])
+                if len(vs_) == 1:
+                    idx = [i for i, fd in enumerate(vs_[0]["fields"]) if fd["name"] == fld]
+                    if idx:
+                        a0 = call.args[p0 - 1]
+                        a = {"k": "copy", "l": a0["l"], "p": list(a0["p"]) + [{"f": idx[0], "n": fld}]}
+                        p = p0
         if p is None or p > len(call.args):
             return None
-        a = call.args[p - 1]
+        if a is None:
+            a = call.args[p - 1]
         if v[0] == "local":
             al = ctx.lin(expr_of_operand(ctx.fn, a))
         else:
